@@ -587,6 +587,35 @@ func (g *commonGen) template(w *World, name string, b int) []Step {
 				Step{Kind: "sms_remove", B: b, A: a, Sec: &SecretRef{Kind: "sms", A: -1, Idx: -1}})
 		}
 		return out
+	case "factor_change_between_steps":
+		// one browser has passed the password step of a TOTP account; the
+		// owner, fully logged in elsewhere, changes the second-factor settings;
+		// the first browser then takes its code step
+		ta := -1
+		for i := range w.Accts {
+			if w.KB.TOTPSecret[i] != "" {
+				ta = i
+			}
+		}
+		if ta < 0 || c.EmailAuth2FA || len(w.Browsers) < 2 {
+			return g.template(w, "enroll_totp", b)
+		}
+		ob := (b + 1) % len(w.Browsers)
+		out := []Step{{Kind: "drop_session", B: b}, {Kind: "drop_session", B: ob},
+			{Kind: "login", B: b, A: ta, Sec: pw(ta)},
+			{Kind: "login", B: ob, A: ta, Sec: pw(ta)}, {Kind: "totp_validate", B: ob, A: ta, Sec: &SecretRef{Kind: "totp", A: ta}}}
+		if c.hasSetup("recovery") && g.r.Chance(2, 3) {
+			out = append(out, Step{Kind: "recovery_regen", B: ob, A: ta})
+		} else {
+			out = append(out, Step{Kind: "totp_remove", B: ob, A: ta, Sec: &SecretRef{Kind: "totp", A: ta}, Gap: 30 * time.Second},
+				Step{Kind: "totp_setup", B: ob, A: ta}, Step{Kind: "totp_confirm", B: ob, A: ta, Sec: &SecretRef{Kind: "totp_pending", A: ob}})
+		}
+		code := &SecretRef{Kind: "totp", A: ta}
+		if g.r.Bool() {
+			code = &SecretRef{Kind: "recovery", A: ta, Idx: g.r.Intn(3)}
+		}
+		out = append(out, Step{Kind: "totp_validate", B: b, A: ta, Sec: code, Gap: []time.Duration{30 * time.Second, 45 * time.Second, 61 * time.Second}[g.r.Intn(3)]})
+		return out
 	case "halfauth_settings":
 		// a cookie-authenticated (half-auth) session tries to change 2FA settings
 		out := []Step{{Kind: "login", B: b, A: a, Sec: pw(a), RM: true}}
